@@ -122,6 +122,37 @@ def make_scratch(name: str) -> str:
     return top
 
 
+def make_scratch_at(name: str, commit: str) -> str:
+    """<top>/src as it was at ``commit`` (for a kept change whose patch no longer applies to the current tree)."""
+    top = os.path.join(SCRATCH_TOP, f"ovmut-{os.getpid()}", name)
+    if os.path.isdir(top):
+        shutil.rmtree(top)
+    os.makedirs(top)
+    p = subprocess.run(f"git -C {REPO} archive {commit} src | tar -x -C {top}", shell=True, capture_output=True, text=True)
+    if p.returncode != 0:
+        raise RuntimeError(f"cannot extract {commit}: {p.stderr}")
+    return top
+
+
+def apply_later_fixes(top: str, base_commit: str) -> list:
+    """Apply, in order, every commit of /repo after ``base_commit`` that still applies cleanly to <top>/src; returns
+    [(sha, subject, applied?)].  A fix that conflicts with the kept change (it rewrote the same lines) is left out as a whole."""
+    out = []
+    revs = subprocess.run(["git", "-C", REPO, "rev-list", "--reverse", f"{base_commit}..HEAD"], capture_output=True, text=True).stdout.split()
+    for sha in revs:
+        subj = subprocess.run(["git", "-C", REPO, "log", "-1", "--format=%s", sha], capture_output=True, text=True).stdout.strip()
+        diff = subprocess.run(["git", "-C", REPO, "show", "--format=", sha, "--", "src"], capture_output=True, text=True).stdout
+        if not diff.strip():
+            continue
+        dry = subprocess.run(["patch", "-p1", "-s", "--forward", "--dry-run", "-d", top], input=diff, capture_output=True, text=True)
+        if dry.returncode == 0:
+            subprocess.run(["patch", "-p1", "-s", "--forward", "-d", top], input=diff, capture_output=True, text=True)
+            out.append((sha[:7], subj, True))
+        else:
+            out.append((sha[:7], subj, False))
+    return out
+
+
 def apply_edits(src: str, mutant: dict):
     files = {}
     for e in mutant["edits"]:
@@ -247,6 +278,16 @@ def seeded(sel, tier) -> int:
             # patches are relative to the repository root: build <top>/src from /repo/src and apply with -p1 in <top>
             p = subprocess.run(["patch", "-p1", "-s", "-d", top, "-i", os.path.join(base, n, "patch.diff")],
                                capture_output=True, text=True)
+            if p.returncode != 0 and meta.get("base_commit"):
+                # a later fix: commit touches lines this change rewrites: rebuild from the commit the change was made on, then
+                # add the later fixes that still apply (the ones that do not are named; they concern other properties' code
+                # only if check_all says so -- see DESIGN.md 11.5)
+                shutil.rmtree(top, ignore_errors=True)
+                top = make_scratch_at("seeded-" + n, meta["base_commit"])
+                p = subprocess.run(["patch", "-p1", "-s", "-d", top, "-i", os.path.join(base, n, "patch.diff")], capture_output=True, text=True)
+                fixes = apply_later_fixes(top, meta["base_commit"]) if p.returncode == 0 else []
+                print(f"seeded {n}: does not apply to the current tree; using base {meta['base_commit']} + patch + later fixes: "
+                      + ", ".join(f"{sha}{'' if ok_ else ' (SKIPPED: conflicts)'}" for sha, _, ok_ in fixes), flush=True)
             if p.returncode != 0:
                 print(f"{n}: patch failed: {p.stdout} {p.stderr}")
                 missed += 1
